@@ -72,7 +72,7 @@ def parse_text(text, import_root=None):
     return parse.ParseFile(text, import_root=import_root)['rule']
 
 
-def compile_pred(text, pred, user_flags=None, import_root=None, rules=None):
+def compile_pred(text, pred, user_flags=None, import_root=None, rules=None):  # noqa: E302
   """Returns Outcome(ok, sql=formatted, preamble, defines, main, program) or a diagnostic outcome."""
   try:
     with quiet():
